@@ -28,7 +28,8 @@ OUT_OF_SCOPE = {"PMAX": "deprecated Pmax query of uppaal-prob", "SCENARIO": "LSC
                 "SCENARIO2": "LSC scenario query"}
 
 
-def production_kinds(F, G):
+def production_kinds(F, G, bodies=True, classes=("UTAP::ExpressionBuilder", "UTAP::StatementBuilder", "UTAP::DocumentBuilder",
+                                                 "UTAP::PropertyBuilder", "UTAP::TigaPropertyBuilder")):
     """rule number -> set of expression kinds a callback of the production (or of its mid-rule actions) can create:
     kind enumerators passed in the CALL, and enumerators that reach the first argument of an expression_t::create_*
     call in the callback's body (over-approximation; used for `can this production build a K`)."""
@@ -49,8 +50,7 @@ def production_kinds(F, G):
             return body_kinds[name]
         ks = set()
         body_kinds[name] = ks
-        for cls in ("UTAP::ExpressionBuilder", "UTAP::StatementBuilder", "UTAP::DocumentBuilder", "UTAP::PropertyBuilder",
-                    "UTAP::TigaPropertyBuilder"):
+        for cls in classes:
             for fn in F.fns(cls + "::" + name):
                 if fn.get("body") is None:
                     continue
@@ -87,7 +87,9 @@ def production_kinds(F, G):
         ks = set()
         for rr in [r] + [m for m in G.rules if m.host is r]:
             for c in rr.calls:
-                ks |= of_callback(c.name)
+                body_ks = of_callback(c.name)       # also fills `forwards`
+                if bodies:
+                    ks |= body_ks
                 pnames = []
                 for cls in ("UTAP::ExpressionBuilder", "UTAP::StatementBuilder", "UTAP::DocumentBuilder"):
                     for fn in F.fns(cls + "::" + c.name):
@@ -234,7 +236,7 @@ def run(chk, F, G, rid="R-PRQUERY"):
                 if any_parse is None:
                     any_parse = (text, cname, can)
                 if K in can:
-                    best = (text, cname)
+                    best = (text, cname, combo, pre, tree)
                     break
             if best:
                 break
@@ -247,6 +249,7 @@ def run(chk, F, G, rid="R-PRQUERY"):
         if best is not None:
             chk.ob(rid, "%s|parses" % K, True, "", where, sample="print(%s) = `%s` parses as %s" % (K, best[0], best[1]))
             chk.ob(rid, "%s|same-kind" % K, True, "", where)
+            _operand_cuts(chk, rid, K, ly, best, PR, sc, sim, where)
             continue
         if any_parse is not None:
             chk.ob(rid, "%s|parses" % K, True, "", where)
@@ -265,3 +268,545 @@ def run(chk, F, G, rid="R-PRQUERY"):
             continue
     if n < 20:
         raise AnalysisBroken("only %d query kinds with a renderable print layout" % n)
+
+
+# ------------------------------------------------------------------------------- R-PRPROD
+EXPRESSION_FAMILY = ("Expression", "Assignment", "DynamicExpression", "MITLExpression", "ExprList", "NonEmptyExprList")
+
+
+def generic_callbacks(F):
+    """callback name -> number of operands, for the ExpressionBuilder callbacks that pop n fragments and push one node
+    whose kind is the callback's first argument and whose children are the popped fragments in parse order - confirmed on
+    the body: the single expression_t::create_<x>ary call gets a kind that comes from the parameter (directly or through
+    a local initialised from it) and operands that read fragments[n-1] .. fragments[0] in that order."""
+    out = {}
+    for name, ctor, n in (("expr_unary", "create_unary", 1), ("expr_binary", "create_binary", 2),
+                          ("expr_ternary", "create_ternary", 3)):
+        for fn in F.fns("UTAP::ExpressionBuilder::" + name):
+            if fn.get("body") is None or not fn["params"]:
+                continue
+            kp = fn["params"][0]["name"]
+            inits = {}
+            for d in walk(fn["body"]):
+                if d.get("k") == "decl":
+                    for v in d.get("vars", []):
+                        if v.get("init") is not None:
+                            inits[v.get("name")] = v["init"]
+
+            def origin(e, depth=0):
+                while isinstance(e, dict) and e.get("k") in ("cast", "paren", "construct") and depth < 6:
+                    e = e.get("e") if e.get("k") != "construct" else (e.get("args") or [None])[0]
+                    depth += 1
+                if isinstance(e, dict) and e.get("k") == "cond":
+                    return origin(e["b"], depth + 1)          # `firstMissing ? make_constant(1) : fragments[2]`
+                if isinstance(e, dict) and e.get("k") == "ref" and e.get("dk") == "local" and e.get("name") in inits and depth < 6:
+                    return origin(inits[e["name"]], depth + 1)
+                return e
+            for c in calls(fn["body"]):
+                if c.get("name") != ctor or "expression_t" not in (c.get("fn") or ""):
+                    continue
+                a = c.get("args", [])
+                k0 = origin(a[0]) if a else None
+                if not (isinstance(k0, dict) and k0.get("k") == "ref" and k0.get("name") == kp):
+                    continue
+                idx = []
+                for x in a[1:1 + n]:
+                    o = origin(x)
+                    s_ = short(o) if isinstance(o, dict) else ""
+                    m = None
+                    if s_.startswith("fragments[") and s_.endswith("]"):
+                        try:
+                            m = int(s_[len("fragments["):-1])
+                        except ValueError:
+                            m = None
+                    idx.append(m)
+                if idx == list(range(n - 1, -1, -1)):
+                    out[name] = n
+    return out
+
+
+def run_productions(chk, F, G, rid="R-PRPROD"):
+    """Parser -> tree -> printer -> parser, per production of the property grammar outside the expression family whose
+    action is a sequence of generic node-building callbacks: the tree the action builds (operands: identifiers, or the
+    trees of the modelled productions of an operand nonterminal, one level deep) is rendered the way expression_t::print
+    lays it out, scanned and parsed again as a property; the parse must exist and must go through the same productions
+    in the same order.  This is where a syntax that exists for exactly one position (the Buchi objective
+    `A[] (p && A<> q)`) meets a printer that composes text from per-kind pieces."""
+    from ..callgraph import CallGraph
+    from .stack import Typing
+    from .printer import Renderer
+    chk.rule(rid, "for every property production built from generic callbacks (expr_unary/binary/ternary with a literal "
+                  "kind): print(tree built by the production) scans and parses as a property, through the same "
+                  "productions in the same order")
+    generic = generic_callbacks(F)
+    if len(generic) < 2:
+        raise AnalysisBroken("%s: the generic node-building callbacks were not recognised (%s)" % (rid, sorted(generic)))
+    T = Typing(F, G, CallGraph(F), "UTAP::TigaPropertyBuilder")
+    PR = PrintReader(F)
+    RD = Renderer(PR)
+    sc = Scanner(F)
+    sim = LRSim(G)
+    kind_names = {v["name"] for v in F.enum("UTAP::Constants::kind_t")["values"]}
+
+    def f_eff(sym):
+        e = (T.eff.get(sym) or {}).get("F")
+        if e is None or e[1] != 0:
+            return None
+        return e[0]
+
+    def net(r, c):
+        """net effect of a non-generic callback on the fragment stack when it is the same constant on every normal
+        path: 0 for subjection(), -1 for property(), which takes the finished query off the stack"""
+        from ..stackmachine import Lin
+        paths, _ = T.paths_for(r, c, Lin(0))
+        vals = set()
+        for p_ in paths or []:
+            if p_.exit != "normal":
+                continue
+            e = p_.eff.get("F")
+            vals.add(0 if e is None else (e.c if e.is_const() else None))
+        return vals.pop() if len(vals) == 1 else None
+
+    # ---- symbolic tree of each candidate production
+    model = {}          # rule num -> tree template with ("LEAF", symbol) leaves
+    skipped = {}
+    for r in G.rules:
+        if r.lhs in EXPRESSION_FAMILY or r.lhs.startswith("$@") or not r.calls:
+            continue
+        if not any(c.name in generic for c in r.calls):
+            continue
+        if any(m.host is r and m.calls for m in G.rules):
+            skipped[r.sig] = "mid-rule actions"
+            continue
+        stack, ok, taken = [], True, None
+        for s_ in r.rhs:
+            if G.is_terminal(s_):
+                continue
+            e = f_eff(s_)
+            if e is None or e not in (0, 1):
+                ok = False
+                skipped[r.sig] = "operand %s has no fixed fragment effect" % s_
+                break
+            if e == 1:
+                stack.append(("LEAF", s_))
+        if not ok:
+            continue
+        for c in sorted(r.calls, key=lambda c_: c_.order):
+            if c.name in generic:
+                n = generic[c.name]
+                a0 = c.args[0] if c.args else None
+                if not (isinstance(a0, dict) and a0.get("k") == "ref" and a0.get("dk") == "enumerator" and
+                        a0.get("name") in kind_names) or len(stack) < n:
+                    ok = False
+                    skipped[r.sig] = "kind of %s is not a literal" % c.name
+                    break
+                if len([a for a in c.args if short(a) not in ("false",) and not short(a).startswith("<default")]) > 1:
+                    ok = False
+                    skipped[r.sig] = "%s with extra arguments" % c.name
+                    break
+                kids = stack[len(stack) - n:]
+                del stack[len(stack) - n:]
+                stack.append((a0["name"], kids, None))
+            elif net(r, c) == 0:
+                continue
+            elif net(r, c) == -1 and len(stack) == 1 and taken is None:
+                taken = stack.pop()
+            else:
+                ok = False
+                skipped[r.sig] = "callback %s is not a generic node builder" % c.name
+                break
+        if ok and len(stack) == 1 and taken is None and f_eff(r.lhs) == 1:
+            model[r.num] = stack[0]
+        elif ok and not stack and taken is not None and f_eff(r.lhs) == 0:
+            model[r.num] = taken          # the finished query, handed to property()
+        elif ok:
+            skipped[r.sig] = "leaves %d fragments" % len(stack)
+    # only what can occur in a property: nonterminals reachable from the property start production
+    reach, todo = set(), [x for r in G.rules if "T_PROPERTY" in r.rhs for x in r.rhs]
+    while todo:
+        x = todo.pop()
+        if x in reach or G.is_terminal(x):
+            continue
+        reach.add(x)
+        for r in G.by_lhs.get(x, []):
+            todo.extend(r.rhs)
+    for num in list(model):
+        if G.rules[num].lhs not in reach:
+            del model[num]
+
+    def kinds_of(t):
+        return set() if t[0] == "LEAF" else {t[0]} | {k_ for c_ in t[1] for k_ in kinds_of(c_)}
+    for num in list(model):
+        oos = kinds_of(model[num]) & set(OUT_OF_SCOPE)
+        if oos:
+            chk.note("%s: %s builds %s, which is not among the query forms C03 names - not armed" %
+                     (rid, G.rules[num].sig, "/".join(sorted(oos))))
+            del model[num]
+    if len(model) < 8:
+        raise AnalysisBroken("%s: only %d property productions could be modelled (%s)" % (rid, len(model), skipped))
+    by_lhs = {}
+    for num in model:
+        by_lhs.setdefault(G.rules[num].lhs, []).append(num)
+
+    # ---- instantiate: leaves become identifiers or (one level) the trees of modelled productions
+    def instances(num, depth):
+        names = iter("abcdefghijklmnop")
+
+        def expand(t, depth):
+            if t[0] == "LEAF":
+                sym = t[1]
+                alts = [[("ID", None), ("OP", "OR"), ("OP", "INLINE_IF")]]
+                if sym in by_lhs and depth > 0:
+                    alts = [[("RULE", n_) for n_ in by_lhs[sym]]]
+                elif sym not in EXPRESSION_FAMILY and sym not in by_lhs:
+                    return None
+                return alts[0]
+            return [("NODE", t)]
+        # enumerate choices for leaves
+        leaves = []
+
+        def collect(t):
+            if t[0] == "LEAF":
+                leaves.append(t)
+            else:
+                for k_ in t[1]:
+                    collect(k_)
+        collect(model[num])
+        choices = []
+        for lf in leaves:
+            ch = expand(lf, depth)
+            if ch is None:
+                return []
+            choices.append(ch)
+        out = []
+        for combo in itertools.product(*choices):
+            if sum(1 for w_, _ in combo if w_ == "OP") > 1:
+                continue            # one compound operand at a time
+            names = iter("abcdefghijklmnop")
+            order = [num]
+            ci = iter(combo)
+
+            def build(t):
+                if t[0] == "LEAF":
+                    what, arg = next(ci)
+                    if what == "ID":
+                        return ("IDENTIFIER", [], next(names))
+                    if what == "OP":
+                        n_ = 3 if arg == "INLINE_IF" else 2
+                        return (arg, [("IDENTIFIER", [], next(names)) for _ in range(n_)], None)
+                    sub = model[arg]
+                    order.append(arg)
+
+                    def inner(u):
+                        if u[0] == "LEAF":
+                            if u[1] not in EXPRESSION_FAMILY:
+                                raise KeyError(u[1])
+                            return ("IDENTIFIER", [], next(names))
+                        return (u[0], [inner(k_) for k_ in u[1]], None)
+                    return inner(sub)
+                return (t[0], [build(k_) for k_ in t[1]], None)
+            try:
+                out.append((build(model[num]), list(order)))
+            except KeyError:
+                continue
+        return out
+
+    contexts = (([], "a property"), (["T_CONTROL", "':'"], "the objective of control:"),
+                (["T_EF", "T_CONTROL", "':'"], "the objective of E<> control:"))
+    n_inst = 0
+    failed = set()
+
+    def has_nt_leaf(t):
+        return (t[0] == "LEAF" and t[1] in by_lhs) or (t[0] != "LEAF" and any(has_nt_leaf(k_) for k_ in t[1]))
+    for num in sorted(model, key=lambda n_: (has_nt_leaf(model[n_]), n_)):
+        r = G.rules[num]
+        where = "/repo/src/parser.y:%s" % r.line if getattr(r, "line", None) else "src/parser.y"
+        bad = None
+        sample = None
+        insts = instances(num, 1)
+        if not insts:
+            chk.note("%s: %s has an operand that is neither an expression nor a modelled production - not decided" % (rid, r.sig))
+            continue
+        for tree, order in insts:
+            if any(o in failed for o in order[1:]):
+                continue            # the operand production fails on its own: reported there
+            n_inst += 1
+            try:
+                text = RD.render(tree, False)
+            except ParseError as e:
+                bad = "the tree it builds cannot be laid out: %s" % e
+                break
+            try:
+                toks = sc.tokens(text)
+            except ParseError as e:
+                bad = "print writes `%s`, which the scanner rejects (%s)" % (text, e)
+                break
+            okc = None
+            err = None
+            for pre, cname in contexts:
+                try:
+                    pt = sim.parse(["T_PROPERTY"] + pre + toks)
+                except ParseError as e:
+                    err = err or e
+                    continue
+                used = []
+
+                def pre_order(nd):
+                    if nd.rule is not None and nd.rule.num in model:
+                        used.append(nd.rule.num)
+                    for k_ in nd.kids or []:
+                        pre_order(k_)
+                pre_order(pt)
+                if used == order:
+                    # the expression operands of the outermost production, as identifier sequences, must be the
+                    # operands of the tree (a text that parses with the operands cut differently is another query)
+                    want = [_ids(k_) for k_ in _expr_operands(tree)]
+                    got = _parse_operands(pt, model, sc_ids=[t_ for t_ in _id_names(text)])
+                    if got is None or got == want:
+                        okc = cname
+                        break
+                    err = err or ParseError("the operands are cut as %s instead of %s" % (got, want))
+                    continue
+                err = err or ParseError("it parses through %s instead of %s" % (
+                    [G.rules[u].sig for u in used] or "no query production", [G.rules[u].sig for u in order]))
+            if okc is None:
+                bad = "print writes `%s` for the tree %s it builds; read back as a property: %s" % (text, _show_tree(tree), err)
+                break
+            sample = sample or "`%s` parses as %s" % (text, okc)
+        if bad is not None:
+            failed.add(num)
+        chk.ob(rid, r.sig, bad is None, bad or "", where, sample=sample)
+    chk.analysed[rid] = {"productions_modelled": len(model), "trees": n_inst,
+                         "not_modelled": {k: v for k, v in sorted(skipped.items())[:40]}}
+
+
+def _show_tree(t):
+    if t[0] in ("IDENTIFIER", "BINDER"):
+        return t[2]
+    return "%s(%s)" % (t[0], ", ".join(_show_tree(k) for k in t[1]))
+
+
+OPERATOR_KINDS_AS_LEAF = ("OR", "INLINE_IF")
+
+
+def _ids(t):
+    return [t[2]] if t[0] == "IDENTIFIER" else [x for k in t[1] for x in _ids(k)]
+
+
+def _expr_operands(t):
+    """maximal subtrees that are plain expressions (identifier or operator leaf), left to right"""
+    if t[0] == "IDENTIFIER" or t[0] in OPERATOR_KINDS_AS_LEAF:
+        return [t]
+    return [x for k in t[1] for x in _expr_operands(k)]
+
+
+def _id_names(text):
+    import re as _re
+    return _re.findall(r"(?<![A-Za-z_])[a-p](?![A-Za-z_\[<])", text)
+
+
+def _parse_operands(pt, model, sc_ids):
+    """identifier sequences of the Expression children of modelled productions in the parse tree, left to right; None if
+    the identifiers of the text cannot be matched with T_ID tokens one to one"""
+    ids = iter(sc_ids)
+    out = []
+    ok = [True]
+
+    def count(nd):
+        if nd.tok is not None:
+            return [next(ids, None)] if nd.tok == "T_ID" else []
+        return [x for k in nd.kids for x in count(k)]
+
+    def rec(nd, inside):
+        if nd.tok is not None:
+            if nd.tok == "T_ID":
+                next(ids, None)
+            return
+        if nd.rule is not None and nd.rule.num in model:
+            for k in nd.kids:
+                if k.tok is None and k.sym in EXPRESSION_FAMILY:
+                    out.append(count(k))
+                else:
+                    rec(k, True)
+            return
+        for k in nd.kids:
+            rec(k, inside)
+    rec(pt, False)
+    if any(x is None for o in out for x in o):
+        return None
+    return out
+
+
+# ------------------------------------------------------------------------------- R-PRDELIM
+def run_delimiters(chk, F, G, rid="R-PRDELIM"):
+    """A production that wraps a list in braces and builds a LIST-like node from it (`'{' ExpressionList '}'`,
+    `'{' FieldInitList '}'`): the braces are part of the text that builds the node, so somebody has to print them -
+    the node's own print code, or the print code of every kind whose production takes the bracketed list as an operand
+    (minE, loadStrategy, the partial-observability control query print `{` .. `}` around the list themselves).  Where
+    the list is an operand of a declaration rather than of an expression (an initialiser), only the node itself can."""
+    from ..inline import KindSlicer
+    chk.rule(rid, "for every production `.. '{' list '}' ..` whose callback creates a node of kind K: K's print code "
+                  "writes a brace, or - when the list is an operand of expression-building productions only - the "
+                  "print code of each kind those productions create does")
+    pk = production_kinds(F, G)
+    # kinds the expression builder creates for a production (not what a property builder makes of the finished query)
+    pk_args = production_kinds(F, G, classes=("UTAP::ExpressionBuilder",))
+    pr = F.fn("UTAP::expression_t::print")
+    ps = KindSlicer(F, pr, subject="this", stop=("print",), expand_helpers=True)
+    cache = {}
+
+    def prints_brace(K, ch="{"):
+        """number of `ch` characters in the literals K's print code writes"""
+        if (K, ch) not in cache:
+            sl = ps.slice(K)
+            cnt = 0
+            for x in walk(sl):
+                if x.get("k") == "str":
+                    cnt += str(x.get("v", "")).count(ch)
+                if x.get("k") in ("char", "int") and x.get("v") == ord(ch) and (x.get("k") == "char" or "char" in (x.get("t") or "")):
+                    cnt += 1
+            cache[(K, ch)] = cnt
+        return cache[(K, ch)]
+
+    def consumers(nt, seen, mult=1):
+        """(production, kinds it creates, number of bracketed lists it takes) for productions that take nt as an
+        operand, through pass-through rules"""
+        out = []
+        for q in G.rules:
+            if nt not in q.rhs or q.num in seen:
+                continue
+            seen.add(q.num)
+            m = mult * q.rhs.count(nt)
+            ks = {k for k in pk_args.get(q.num, set()) if k not in OPERATOR_FRAGMENT and not k.startswith("MITL_")}
+            if ks:
+                out.append((q, ks, m))
+            elif q.lhs.startswith("$@"):
+                continue
+            elif not q.calls or all(c.name.startswith("decl_") for c in q.calls):
+                sub = consumers(q.lhs, seen, m) if q.lhs != nt else []
+                out.extend(sub if sub else [(q, set(), m)])
+            else:
+                out.append((q, set(), m))
+        return out
+    n = 0
+    for r in G.rules:
+        if "'{'" not in r.rhs or "'}'" not in r.rhs or not r.calls:
+            continue
+        made = {k for k in pk.get(r.num, set()) if k == "LIST"}
+        # only the production's own callbacks, with the list between the braces
+        if not made:
+            continue
+        i, j = r.rhs.index("'{'"), len(r.rhs) - 1 - r.rhs[::-1].index("'}'")
+        if j - i != 2 or G.is_terminal(r.rhs[i + 1]):
+            continue
+        if len(pk.get(r.num, set()) - {"LIST"} - OPERATOR_FRAGMENT) > 0:
+            continue            # the production builds the enclosing query node itself: R-PRQUERY's subject
+        n += 1
+        cons = consumers(r.lhs, {r.num})
+        where = "/repo/src/parser.y:%s" % getattr(r, "line", "?")
+        expr_only = bool(cons) and all(ks for _, ks, _ in cons)
+        if expr_only:
+            missing = sorted({"%s (%d list(s), writes %d `{` and %d `}`)" % (k, m, prints_brace(k), prints_brace(k, "}"))
+                              for _, ks, m in cons for k in ks
+                              if prints_brace(k) < m or prints_brace(k, "}") < m})
+            chk.ob(rid, r.sig, not missing,
+                   "the braces of `%s` are not all printed by %s, whose production takes the list(s) as operands (LIST "
+                   "itself writes braces for initialisers only)" % (r.sig, "; ".join(missing)), where,
+                   sample="printed by %s" % "/".join(sorted({k for _, ks, _ in cons for k in ks})))
+        else:
+            decl = sorted({q.sig for q, ks, _ in cons if not ks})[:3]
+            chk.ob(rid, r.sig, prints_brace("LIST") > 0 and prints_brace("LIST", "}") > 0,
+                   "the list built by `%s` is an operand of %s, which is not an expression: only the print code of LIST "
+                   "can write its braces, and it writes none - an initialiser `{1, 2}` is printed `1, 2`" %
+                   (r.sig, "; ".join(decl) or "a declaration"), where)
+    if n < 2:
+        raise AnalysisBroken("%s: %d brace-delimited list productions found (expected the initialiser and the query lists)" % (rid, n))
+    chk.analysed[rid] = {"productions": n}
+
+
+def _slots(pt):
+    """for every T_ID token of a parse, left to right: (production, operand index) of the nearest enclosing node that
+    is not of the expression family, and whether the token is an expression operand by itself (some node of the
+    expression family spans exactly this token - as opposed to a name the production reads as a bare identifier)"""
+    out = []
+
+    def ntoks(nd):
+        return 1 if nd.tok is not None else sum(ntoks(k) for k in nd.kids)
+
+    def rec(nd, slot, in_expr, whole):
+        if nd.tok is not None:
+            if nd.tok == "T_ID":
+                out.append((slot, whole))
+            return
+        fam_here = nd.sym in EXPRESSION_FAMILY
+        fam = in_expr or fam_here
+        single = ntoks(nd) == 1
+        for i, k in enumerate(nd.kids):
+            if fam:
+                rec(k, slot, True, whole or (fam_here and single))
+            else:
+                rec(k, (nd.rule.num if nd.rule is not None else -1, i), False, False)
+    rec(pt, (-1, 0), False, False)
+    return out
+
+
+def _operand_cuts(chk, rid, K, ly, best, PR, sc, sim, where):
+    """Each operand of K that print writes as an expression is replaced, one at a time, by a conditional expression
+    `x ? y : z` - parenthesised exactly when the layout's embrace helper would parenthesise a node of INLINE_IF's
+    precedence - and the text is parsed again: the three identifiers must land in the operand slot the single identifier
+    had.  (A printer that writes an operand raw in front of `<=`, `:` or `U` lets the operand swallow what follows.)"""
+    text0, cname, combo, pre, pt0 = best
+    slots0 = _slots(pt0)
+    kids = [it for it in ly.items if it[0] != "tok"]
+    ids0 = [i_ for i_, alt in enumerate(combo) if "%s" in alt]
+    if len(slots0) != len(ids0):
+        return          # identifiers of the context or a name: positions cannot be matched one to one
+    prec = PR.prec
+    cp = prec.get("INLINE_IF")
+    for n_id, ci in enumerate(ids0):
+        it = kids[ci]
+        slot, in_expr = slots0[n_id]
+        if it[0] != "child" or not in_expr or combo[ci] != "%s":
+            continue
+        mode, _, thr = str(it[2]).partition("@")
+        from .printer import _threshold_value
+        pp = prec.get(K)
+        if thr:
+            pp = _threshold_value(thr, pp, prec) if (pp is not None or "parent" not in thr) else None
+        paren = mode != "raw" and pp is not None and cp is not None and (pp > cp if mode == "strict" else pp >= cp)
+        names = iter("abcdefghij")
+        parts = []
+        cj = iter(combo)
+        k_ = -1
+        for x in ly.items:
+            if x[0] == "tok":
+                parts.append(x[1])
+                continue
+            k_ += 1
+            alt = next(cj)
+            if k_ == ci:
+                next(names)
+                parts.append("(x ? y : z)" if paren else "x ? y : z")
+            else:
+                parts.append(alt.replace("%s", next(names)))
+        text = "".join(parts)
+        key = "%s|operand %s keeps its extent" % (K, it[1])
+        try:
+            pt = sim.parse(["T_PROPERTY"] + pre + sc.tokens(text))
+        except ParseError as e:
+            chk.ob(rid, key, False,
+                   "expression_t::print writes operand %s of %s %s: with a conditional expression there the text is `%s`, "
+                   "which does not parse as %s (%s) - the operand runs into the text that follows it"
+                   % (it[1], K, "without parentheses" if mode == "raw" else "through %s" % it[2], text, cname, e), where)
+            continue
+        slots = _slots(pt)
+        want = [s_ for j_, s_ in enumerate(slots0) if j_ != n_id]
+        got3 = slots[n_id:n_id + 3]
+        rest = slots[:n_id] + slots[n_id + 3:]
+        ok = len(slots) == len(slots0) + 2 and all(g == (slot, True) for g in got3) and rest == want
+        chk.ob(rid, key, ok,
+               "expression_t::print writes operand %s of %s %s: with a conditional expression there the text is `%s`, "
+               "which parses with the operands cut differently (the identifiers x, y, z land in %s instead of all in "
+               "operand %s)" % (it[1], K, "without parentheses" if mode == "raw" else "through %s" % it[2], text,
+                                [g[0] for g in got3], (slot,)), where,
+               sample="`%s`" % text)
